@@ -55,5 +55,37 @@ def run_cpu(run, fams, rule, mode, mc=True):
     run.triage("cpu", files, accepted, ids, SPECDIR, "Cpu_Trace.tla", "Cpu_Trace.cfg", "Cpu_TraceDiag.cfg", features, describe=describe, env={"MODE": mode})
 
 
+INT_SPECDIR = os.path.join(vlib.SPEC, "intctl")
+
+
+def rom_traces(run, mode):
+    """Windows of the repository's own test ROMs, executed on the full machine, validated unit by unit against
+    IntCtl (which unit had to happen) and SM83!Exec (effect / cycles / access timing, by MODE)."""
+    files, _ = run.gen("int", fam="rom")
+    accepted, ids = run.validate(files, INT_SPECDIR, "Int_Trace.tla", "Int_Trace.cfg", env={"MODE": mode}, heap="6g")
+    run.cov["traces_validated_against_impl"] += len(accepted)
+    run.cov["rom_windows_validated"] = len(accepted)
+    n = 0
+    for f in files:
+        for line in open(f):
+            n += len(json.loads(line)["ev"])
+    run.cov["rom_units_validated"] = n
+    run.cov["events_validated"] += n
+    run.cov["evaluations"] += n
+    run.cov["rule"] += (" rom = windows of consecutive units of the repository's test ROMs (blargg cpu_instrs / instr_timing / mem_timing / halt_bug, mooneye interrupt tests) on the full machine with the hardware "
+                        "raising interrupts, each unit validated against IntCtl and SM83!Exec.")
+
+    def feats(r):
+        ev = r.get("event")
+        return {"family": "rom", "op": ev[1][0] if ev else None}
+
+    def desc(r):
+        ev = r.get("event")
+        sc = r["scenario"]
+        return "ROM %s window (skip %s): unit %d at PC=%04X bytes %s -> registers %s in %d cycles is not a step of Int_Trace (MODE %s) from [%s]" % (
+            os.path.basename(str(sc["reset"][3])), sc["reset"][4], r["index"], ev[0][9] if ev else 0, ev[1] if ev else None, ev[3] if ev else None, ev[4] if ev else 0, mode, r.get("state"))
+    run.triage("int", files, accepted, ids, INT_SPECDIR, "Int_Trace.tla", "Int_Trace.cfg", "Int_TraceDiag.cfg", feats, describe=desc, env={"MODE": mode})
+
+
 def replay(run, path):
     return vlib.generic_replay(run, path, "cpu", SPECDIR, "Cpu_Trace.tla", "Cpu_Trace.cfg", env={"MODE": run.prop})
